@@ -121,7 +121,7 @@ func (t *tBinaryProto) binaryPack(m erpc.Message) error {
 func (t *tBinaryProto) binaryUnpack(m erpc.Message) error {
 	t.unpackLock.Lock()
 	defer t.unpackLock.Unlock()
-	t.rwCounter.WriteCounter.Zero()
+	t.rwCounter.ReadCounter.Zero()
 
 	err := readMessageBegin(t.tProtocol, m)
 	if err != nil {
